@@ -62,6 +62,16 @@ def mechanism_of(r, case, got, want):
     return 'parse-outcome'
 
 
+# grammars whose predicates answer with numbers, strings or lists instead of booleans (the verdict is their truth value;
+# whatever the number, the outcome of parse is one of the three)
+PREDICATED = [
+    (None, 'start = Word\nWord = /[ab]*/ where `len`\n', ['Word'], 'ab!'),
+    (None, 'start = Counted+\nclass Counted { tag: /[ab]/; count: /[0-9]/ |> `int`; requires count }\n', ['Counted'], 'a032'),
+    (None, 'start = W+\nW = /[ab]+!?/ where `lambda s: s.count("a")`\n', ['W'], 'ab!'),
+    (None, 'start = (Ws where `lambda xs: xs`) << "!"\nWs = /[ab]/*\n', ['Ws'], 'ab!'),
+    (None, 'start = N+\nN = /[0-9]/ |> `int` where `lambda n: n - 1`\n', ['N'], '0123'),
+    (None, 'start = P\nclass P { a: /[ab]*/; let n: "" |> `lambda _: 3`; requires `len(a) * n // 3` }\n', ['P'], 'ab!'),
+]
 DERIVED = [
     ('grammar c08b\nstart = Item+\nItem = Word | Num\nWord = /[a-z]+/\nNum = /[0-9]/\nclass K { w: Word; n: Num }\n',
      'grammar c08c extends c08b\noverride Word = /[A-Z]+/\nBang = "!"\nclass Q { k: K; b: Bang }\nPairs = (Item // ",")\n',
@@ -90,9 +100,10 @@ def derived_stream(R):
             return ('error', e.position.index)
         except Exception as e:                  # noqa
             return ('exception', type(e).__name__)
-    for base, child, entries, alpha in DERIVED:
+    for base, child, entries, alpha in DERIVED + PREDICATED:
         try:
-            Grammar(base)
+            if base is not None:
+                Grammar(base)
             g = Grammar(child)
         except Exception as e:                  # noqa
             R.counterexample('derived', 'derived-grammar-rejected', {'base': base, 'child': child}, 'a module', repr(e)[:200])
